@@ -162,4 +162,99 @@ example :
     get (runFiles .copy s (names.take 1)).1.dest (B "a.tar.gz") = some (.file 1) := by
   decide +kernel
 
+/-! ### one handle, several operations (`execW`, `runW`) -/
+
+/-- a step of a handle changes only the handle's own directory and the destination -/
+theorem C20_seq_step_frame (op : Op) (w w' : World) (t : Nat) (ctl : Bytes) (names : List Bytes)
+    (ok : Bool) (h : execW op w t ctl names = some (w', ok)) (i : Nat) (hi : i ≠ w.here) (ht : i ≠ t) :
+    w'.dirs[i]? = w.dirs[i]? := by
+  unfold execW at h
+  split at h
+  · cases h
+  · split at h
+    · injection h with h
+      injection h with h1 _
+      subst h1
+      simp [Ne.symm hi, Ne.symm ht]
+    · cases h
+
+/-- where the handle is afterwards: in the destination exactly when a copy / move
+    succeeded, where it was otherwise -/
+theorem C20_seq_step_handle (op : Op) (w w' : World) (t : Nat) (ctl : Bytes) (names : List Bytes)
+    (ok : Bool) (h : execW op w t ctl names = some (w', ok)) :
+    w'.here = (if ok = true ∧ op ≠ .remove then t else w.here) := by
+  unfold execW at h
+  split at h
+  · cases h
+  · split at h
+    · rename_i s d _ _
+      injection h with h
+      injection h with h1 h2
+      subst h1; subst h2
+      have hs := Lemmas.Upload.exec_shape op ⟨s, .dir, d, false⟩ ctl names
+      generalize exec op ⟨s, .dir, d, false⟩ ctl names = o at hs
+      cases hs <;> simp
+    · cases h
+
+/-- a successful copy / move step puts every referenced file and the control file into
+    the destination as they were in the handle's directory before the step -/
+theorem C20_seq_step_success (op : Op) (w w' : World) (t : Nat) (ctl : Bytes) (names : List Bytes)
+    (hop : op ≠ .remove) (h : execW op w t ctl names = some (w', true)) :
+    ∃ s d', w.dirs[w.here]? = some s ∧ w'.dirs[t]? = some d' ∧
+      ∀ n ∈ names ++ [ctl], get d' n = get s n := by
+  unfold execW at h
+  split at h
+  · cases h
+  · split at h
+    · rename_i hne s d hs hd
+      injection h with h
+      injection h with h1 h2
+      subst h1
+      refine ⟨s, (exec op ⟨s, .dir, d, false⟩ ctl names).state.dest, hs, ?_, ?_⟩
+      · have hlen : t < w.dirs.length := by
+          rcases List.getElem?_eq_some_iff.mp hd with ⟨hl, _⟩; exact hl
+        simp [hlen]
+      · exact (Lemmas.Upload.exec_success hop ⟨s, .dir, d, false⟩ ctl names h2).2
+    · cases h
+
+/-- any sequence of operations on one handle: a directory that is neither where the handle
+    starts nor the destination of any step is never changed -/
+theorem C20_seq_frame (ctl : Bytes) (names : List Bytes) (ops : List (Op × Nat)) (w w' : World)
+    (oks : List Bool) (h : runW ctl names w ops = some (w', oks)) (i : Nat) (hi : i ≠ w.here)
+    (ht : ∀ p ∈ ops, p.2 ≠ i) : w'.dirs[i]? = w.dirs[i]? := by
+  induction ops generalizing w oks with
+  | nil => simp [runW] at h; rw [h.1]
+  | cons p rest ih =>
+    obtain ⟨op, t⟩ := p
+    simp only [runW] at h
+    split at h
+    · cases h
+    · rename_i w1 ok hstep
+      split at h
+      · cases h
+      · rename_i w2 oks2 hrest
+        injection h with h
+        injection h with h1 _
+        subst h1
+        have hti : i ≠ t := fun e => ht (op, t) (List.mem_cons_self) e.symm
+        have hhere : i ≠ w1.here := by
+          rw [C20_seq_step_handle op w w1 t ctl names ok hstep]
+          split
+          · exact hti
+          · exact hi
+        rw [ih w1 oks2 hrest hhere (fun p hp => ht p (List.mem_cons_of_mem _ hp))]
+        exact C20_seq_step_frame op w w1 t ctl names ok hstep i hi hti
+
+/-- copy to a staging directory, then move on: the originals stay where they were, the
+    staging directory is emptied again, the handle ends in the final directory; copy then
+    remove leaves the originals alone as well -/
+example :
+    let B := Bytes.ofString
+    let d0 : Dir := [(B "a.tar.gz", .file 1), (B "a.dsc", .file 2)]
+    runW (B "a.dsc") [B "a.tar.gz"] ⟨[d0, [], []], 0⟩ [(.copy, 1), (.move, 2)]
+      = some (⟨[d0, [], d0], 2⟩, [true, true]) ∧
+    runW (B "a.dsc") [B "a.tar.gz"] ⟨[d0, [], []], 0⟩ [(.copy, 1), (.remove, 2)]
+      = some (⟨[d0, [], []], 1⟩, [true, true]) := by
+  decide +kernel
+
 end GoDebian.Props.C20
